@@ -103,7 +103,15 @@ fn top_level_item(input: Span) -> PResult<Item> {
                     .parse(input)?;
                     Ok((
                         input,
-                        AtRule::new(name, args.trim().into(), body).into(),
+                        AtRule::new(
+                            name,
+                            args.trim_matches(|c: char| {
+                                c.is_ascii_whitespace()
+                            })
+                            .into(),
+                            body,
+                        )
+                        .into(),
                     ))
                 }
             }
